@@ -14,6 +14,7 @@ import (
 	"verifharness/gen"
 	"verifharness/model"
 	"verifharness/obs"
+	"verifharness/sim"
 )
 
 func init() {
@@ -146,6 +147,17 @@ func runC19(c *core.Ctx) {
 	}
 	if fd := errors.FlattenDetails(e); fd != strings.Join(got.Details, "\n--\n") {
 		c.Violate("flatten/details", "FlattenDetails is not the details joined by a '--' line", fmt.Sprintf("%s\n%q", t, fd))
+	}
+	// the same accessors on the error decoded at a knowing process
+	if p := core.Try(func() {
+		d, _ := sim.Hop(e)
+		gd := observeAnn(d)
+		c.Count("accessor-records-compared", 1)
+		compareAnn(gd, want, func(field, gs, ws string) {
+			c.Violate("accessor-decoded/"+field, "aggregation accessor of the decoded error differs from the model", fmt.Sprintf("%s\n%s: got %s\n   want %s", t, field, gs, ws))
+		})
+	}); p != nil {
+		c.Violate("panic/decoded", "hop or accessor panicked", fmt.Sprintf("%s\n%v", t, p))
 	}
 	c.Sample(sample(t, map[string]interface{}{"hints": got.Hints, "details": got.Details, "keys": got.Keys, "tags": got.Tags, "links": got.Links}))
 }
